@@ -43,10 +43,11 @@ fn parse_headers(buf: &[u8]) -> Result<(Headers<'_>, &[u8]), HttpParsingError> {
 #[inline(always)]
 fn parse_header_line(line: &[u8]) -> Result<(&str, &[u8]), HttpParsingError> {
     let colon = memchr(b':', line).ok_or(MalformedHeader)?;
-    if !line[..colon]
-        .iter()
-        .copied()
-        .all(is_valid_header_field_byte)
+    if colon == 0
+        || !line[..colon]
+            .iter()
+            .copied()
+            .all(is_valid_header_field_byte)
     {
         return Err(MalformedHeader);
     }
